@@ -236,6 +236,8 @@ Proof. intros (h2 & ->) (h3 & ->). exists h3. reflexivity. Qed.
 Lemma framed_cur w w' : framed w w' -> w_cur w' = w_cur w /\ w_buf w' = w_buf w /\ w_ok w' = w_ok w /\
   w_size w' = w_size w /\ w_dest w' = w_dest w /\ w_held w' = w_held w /\ w_reusable w' = w_reusable w.
 Proof. intros (h & ->). repeat split. Qed.
+Lemma framed_px w w' : framed w w' -> w_px w' = w_px w.
+Proof. intros (h & ->). reflexivity. Qed.
 
 (* empty_mem_output_buffer when the buffer is exactly full *)
 Lemma empty_ok m w d wr : Jg (w_heap w) (w_cur w) (w_buf w) d wr -> d_free d = 0 ->
@@ -544,7 +546,7 @@ Definition Inv (w : world) : Prop :=
   end.
 
 Definition eff_alloc (c : cfg) (alloc : bool) : bool := match cf_mgr c with TJ => alloc | IJG => true end.
-Definition good_cfg (c : cfg) : Prop := cf_mgr c = IJG \/ cf_clr c = true.
+Definition good_cfg (c : cfg) : Prop := cf_rebind c = true /\ (cf_mgr c = IJG \/ cf_clr c = true).
 
 Lemma Inv0 : Inv world0.
 Proof. split; [split; [reflexivity|intros b []]|]. split; reflexivity. Qed.
@@ -561,6 +563,7 @@ Qed.
 Definition MDpost (c : cfg) (alloc : bool) (w w1 : world) : Prop :=
   exists d1, w_dest w1 = Some d1 /\ J (w_heap w1) (w_cur w1) (w_buf w1) d1 [] /\
     d_alloc d1 = eff_alloc c alloc /\ w_cur w1 = w_cur w /\ w_ok w1 = w_ok w /\ w_held w1 = w_held w /\
+    bound_now w1 = true /\ p_list (w_px w1) = p_list (w_px w) /\
     (eff_alloc c alloc = false ->
        w_buf w1 = w_buf w /\ d_bufsize d1 = w_size w /\ skel (w_heap w1) = skel (w_heap w)).
 
@@ -613,16 +616,16 @@ Definition MDerr (w w1 : world) : Prop :=
   Inv (set_reusable false w1) /\ w_heap w1 = w_heap w /\ w_buf w1 = w_buf w /\ w_size w1 = w_size w /\
   w_ok w1 = w_ok w /\ w_held w1 = w_held w.
 
-Lemma mem_dest_tj_ok c alloc w : cf_mgr c = TJ -> cf_clr c = true -> Inv w -> w_cur w = w_buf w ->
-  pass_ok c alloc w = true -> zero_reuse c alloc w = false ->
-  match mem_dest c alloc w with
+Lemma mem_dest_tj_body_ok c alloc w : cf_mgr c = TJ -> cf_clr c = true -> Inv w -> w_cur w = w_buf w ->
+  pass_ok c alloc w = true -> zero_reuse c alloc w = false -> bound_now w = true ->
+  match mem_dest_tj_body (cf_clr c) (cf_zfix c) alloc w with
   | (w1, None) => MDpost c alloc w w1
   | (w1, Some st) => st = StBufSize /\ alloc = false /\ MDerr w w1
   end.
 Proof.
-  intros Hm Hclr HI Hcur Hpass Hzr.
+  intros Hm Hclr HI Hcur Hpass Hzr Hbn.
   pose proof (d0_OK w HI) as (HdOK & Hreus). destruct HI as (W & NB & HD).
-  unfold mem_dest. rewrite Hm, Hclr. unfold mem_dest_tj. fold (d0_of w).
+  rewrite Hclr. unfold mem_dest_tj_body. fold (d0_of w).
   set (d0 := d0_of w) in *.
   set (reused := (d_buffer d0 =? w_buf w) && negb (w_buf w =? 0) && alloc).
   unfold MDpost, eff_alloc. rewrite Hm.
@@ -644,7 +647,7 @@ Proof.
       destruct (h_malloc (w_heap w) (out_buf_size TJ) Lib false) as [h1 a] eqn:Hmal.
       eexists. split; [reflexivity|]. cbn [w_heap w_cur w_buf w_ok w_held set_dest set_out set_heap].
       split; [eapply J_fresh; try eassumption; [apply out_buf_pos|reflexivity]|].
-      split; [reflexivity|]. split; [reflexivity|]. split; [reflexivity|]. split; [reflexivity|]. discriminate.
+      split; [reflexivity|]. split; [reflexivity|]. split; [reflexivity|]. split; [reflexivity|]. split; [exact Hbn|]. split; [reflexivity|]. discriminate.
     + split; [reflexivity|]. split; [reflexivity|].
       unfold MDerr. cbn [w_heap w_buf w_size w_ok w_held set_dest set_reusable w_dest w_reusable].
       split; [|repeat split].
@@ -667,7 +670,7 @@ Proof.
         - destruct Hn0 as [Hn0|(Hn1 & Hn2 & Hn3)]; [left; exact Hn0|right].
           split; [congruence|]. split; [exact Hn2|]. right. symmetry. exact Hcur.
         - discriminate. }
-      split; [reflexivity|]. split; [reflexivity|]. split; [reflexivity|]. split; [reflexivity|]. discriminate.
+      split; [reflexivity|]. split; [reflexivity|]. split; [reflexivity|]. split; [reflexivity|]. split; [exact Hbn|]. split; [reflexivity|]. discriminate.
     + assert (Ez2' : w_size w <> 0).
       { destruct (w_size w =? 0) eqn:E0; [|apply Z.eqb_neq in E0; exact E0]. exfalso.
         cbn [andb] in Ez2. destruct (cf_zfix c); discriminate. }
@@ -680,36 +683,65 @@ Proof.
       { apply J_given with (b := b); try assumption.
         - left; reflexivity.
         - intros _. split; reflexivity. }
-      split; [reflexivity|]. split; [reflexivity|]. split; [reflexivity|]. split; [reflexivity|].
+      split; [reflexivity|]. split; [reflexivity|]. split; [reflexivity|]. split; [reflexivity|]. split; [exact Hbn|]. split; [reflexivity|].
       intros _. split; [reflexivity|]. split; [reflexivity|]. apply skel_upd. reflexivity.
 Qed.
 
-Lemma mem_dest_ijg_ok c alloc w : cf_mgr c = IJG -> Inv w -> w_cur w = w_buf w ->
-  pass_ok c alloc w = true ->
+Lemma bound_bind w : bound_now (bind_out w) = true.
+Proof. unfold bound_now, bind_out. cbn. apply Z.eqb_refl. Qed.
+
+Lemma mem_dest_tj_ok c alloc w : cf_mgr c = TJ -> cf_clr c = true -> cf_rebind c = true -> Inv w -> w_cur w = w_buf w ->
+  pass_ok c alloc w = true -> zero_reuse c alloc w = false ->
   match mem_dest c alloc w with
+  | (w1, None) => MDpost c alloc w w1
+  | (w1, Some st) => st = StBufSize /\ alloc = false /\ MDerr w w1
+  end.
+Proof.
+  intros Hm Hclr Hrb HI Hcur Hpass Hzr. unfold mem_dest. rewrite Hm, Hrb. unfold mem_dest_tj. cbn [orb].
+  exact (mem_dest_tj_body_ok c alloc (bind_out w) Hm Hclr HI Hcur Hpass Hzr (bound_bind w)).
+Qed.
+
+Lemma mem_dest_ijg_body_ok c alloc w : cf_mgr c = IJG -> Inv w -> w_cur w = w_buf w ->
+  pass_ok c alloc w = true -> bound_now w = true ->
+  match mem_dest_ijg_body w with
   | (w1, None) => MDpost c alloc w w1
   | (w1, Some st) => False
   end.
 Proof.
-  intros Hm (W & NB & HD) Hcur Hpass.
-  unfold mem_dest. rewrite Hm. unfold mem_dest_ijg, MDpost, eff_alloc. rewrite Hm.
+  intros Hm (W & NB & HD) Hcur Hpass Hbn.
+  unfold mem_dest_ijg_body, MDpost, eff_alloc. rewrite Hm.
   destruct ((w_buf w =? 0) || (w_size w =? 0)) eqn:Ez.
   - destruct (h_malloc (w_heap w) (out_buf_size IJG) Lib false) as [h1 a] eqn:Hmal.
     eexists. split; [reflexivity|]. cbn [w_heap w_cur w_buf w_ok w_held set_dest set_out set_heap].
     split; [eapply J_fresh; try eassumption; [apply out_buf_pos|reflexivity]|].
-    split; [reflexivity|]. split; [reflexivity|]. split; [reflexivity|]. split; [reflexivity|]. discriminate.
+    split; [reflexivity|]. split; [reflexivity|]. split; [reflexivity|]. split; [reflexivity|]. split; [exact Hbn|]. split; [reflexivity|]. discriminate.
   - apply orb_false_iff in Ez as (Ez1 & Ez2). apply Z.eqb_neq in Ez1, Ez2.
     destruct (pass_ok_inv c alloc w Hpass Ez1) as (b & Hb & Hl & Hsz). rewrite Hm in Hsz.
     destruct Hsz as [Hsz|Hsz]; [discriminate|].
     eexists. split; [reflexivity|]. cbn [w_heap w_cur w_buf w_ok w_held set_dest set_out set_heap].
     split.
     { apply J_given with (b := b); try assumption; [lia|left; reflexivity|discriminate]. }
-    split; [reflexivity|]. split; [reflexivity|]. split; [reflexivity|]. split; [reflexivity|]. discriminate.
+    split; [reflexivity|]. split; [reflexivity|]. split; [reflexivity|]. split; [reflexivity|]. split; [exact Hbn|]. split; [reflexivity|]. discriminate.
 Qed.
+
+Lemma mem_dest_ijg_ok c alloc w : cf_mgr c = IJG -> cf_rebind c = true -> Inv w -> w_cur w = w_buf w ->
+  pass_ok c alloc w = true ->
+  match mem_dest c alloc w with
+  | (w1, None) => MDpost c alloc w w1
+  | (w1, Some st) => False
+  end.
+Proof.
+  intros Hm Hrb HI Hcur Hpass. unfold mem_dest. rewrite Hm, Hrb. unfold mem_dest_ijg.
+  exact (mem_dest_ijg_body_ok c alloc (bind_out w) Hm HI Hcur Hpass (bound_bind w)).
+Qed.
+
+Lemma term_bound w d : bound_now w = true ->
+  term_destination w d = set_out (if d_alloc d then d_buffer d else w_buf w) (d_bufsize d - d_free d) w.
+Proof. intros H. unfold term_destination. rewrite H. reflexivity. Qed.
 
 (* ------------------------------------------------------ end of the call *)
 Lemma finish_ok w2 d2 st wr' e :
-  Jg (w_heap w2) (w_cur w2) (w_buf w2) d2 wr' -> is_bad e = false ->
+  Jg (w_heap w2) (w_cur w2) (w_buf w2) d2 wr' -> is_bad e = false -> bound_now w2 = true ->
   let w3 := set_dest d2 w2 in
   let w4 := if st_ok st || d_alloc d2 then term_destination w3 d2 else w3 in
   let wf := set_reusable (st_ok st) (wlog e (hand_over w4)) in
@@ -718,7 +750,12 @@ Lemma finish_ok w2 d2 st wr' e :
                       contents (w_heap wf) (w_buf wf) (w_size wf) = wr') /\
   (d_alloc d2 = false -> w_buf wf = w_buf w2 /\ skel (w_heap wf) = skel (w_heap w2)).
 Proof.
-  intros (W & NB & (b & OK & Hk & Hd) & Hbase & Hfr & Hoff & Hlen) He w3 w4 wf.
+  intros (W & NB & (b & OK & Hk & Hd) & Hbase & Hfr & Hoff & Hlen) He Hbn w3 w4 wf.
+  assert (Ht : term_destination w3 d2 = set_out (if d_alloc d2 then d_buffer d2 else w_buf w3) (d_bufsize d2 - d_free d2) w3)
+    by (apply term_bound; exact Hbn).
+  subst wf w4. rewrite Ht. clear Ht.
+  set (w4 := if st_ok st || d_alloc d2 then set_out (if d_alloc d2 then d_buffer d2 else w_buf w3) (d_bufsize d2 - d_free d2) w3 else w3).
+  set (wf := set_reusable (st_ok st) (wlog e (hand_over w4))).
   destruct OK as (Hblk & Hlive & Hsz & Hnew & Hna).
   pose proof (blk_range _ _ _ W Hblk) as Hrng.
   set (pbuf := w_buf w4).
@@ -786,7 +823,7 @@ Lemma run_call_ok c alloc ops w : good_cfg c -> Inv w ->
   pass_ok c alloc w = true -> zero_reuse c alloc w = false -> forallb chunk_ok ops = true ->
   match run_call_st c alloc ops w with (w', st) => CallPost c alloc ops w w' st end.
 Proof.
-  intros Hgood HI Hpass Hzr Hch. unfold run_call_st.
+  intros (Hrb & Hgood) HI Hpass Hzr Hch. unfold run_call_st.
   set (w0 := set_cur (w_buf w) w).
   assert (HI0 : Inv w0) by exact HI.
   assert (Hcur0 : w_cur w0 = w_buf w0) by reflexivity.
@@ -798,10 +835,10 @@ Proof.
                end).
   { destruct (cf_mgr c) eqn:Hm.
     - assert (Hclr : cf_clr c = true) by (destruct Hgood as [H|H]; [congruence|exact H]).
-      pose proof (mem_dest_tj_ok c alloc w0 Hm Hclr HI0 Hcur0 Hpass0 Hzr0) as H.
+      pose proof (mem_dest_tj_ok c alloc w0 Hm Hclr Hrb HI0 Hcur0 Hpass0 Hzr0) as H.
       destruct (mem_dest c alloc w0) as [w1 [st|]]; [|exact H].
       destruct H as (A & B & C). split; [exact A|]. split; [unfold eff_alloc; rewrite Hm; exact B|exact C].
-    - pose proof (mem_dest_ijg_ok c alloc w0 Hm HI0 Hcur0 Hpass0) as H.
+    - pose proof (mem_dest_ijg_ok c alloc w0 Hm Hrb HI0 Hcur0 Hpass0) as H.
       destruct (mem_dest c alloc w0) as [w1 [st|]]; [contradiction|exact H]. }
   destruct (mem_dest c alloc w0) as [w1 [st|]].
   - (* error inside jpeg_mem_dest_tj *)
@@ -813,7 +850,7 @@ Proof.
     split; [intros _; left; split; [reflexivity|exact Hea]|].
     intros _. split; [exact Hb|]. split; [|discriminate].
     cbn [w_heap set_reusable wlog set_heap]. rewrite skel_logadd, Hh. reflexivity.
-  - destruct MD as (d1 & Hd1 & HJ1 & Hal1 & Hc1 & Hok1 & Hheld1 & Hna1).
+  - destruct MD as (d1 & Hd1 & HJ1 & Hal1 & Hc1 & Hok1 & Hheld1 & Hbn1 & _ & Hna1).
     rewrite Hd1.
     pose proof (run_ops_ok (cf_mgr c) ops w1 d1 [] HJ1 Hch) as RO.
     pose proof (run_ops_stable (cf_mgr c) ops w1 d1) as ST.
@@ -829,7 +866,7 @@ Proof.
       - destruct RO as ((wr' & HG) & _). exists wr'. split; [exact HG|discriminate]. }
     destruct HG as (wr' & HG & Hwr).
     match goal with |- CallPost _ _ _ _ (set_reusable _ (wlog ?e _)) _ =>
-      pose proof (finish_ok w2 d2 st wr' e HG eq_refl) as FIN end.
+      pose proof (finish_ok w2 d2 st wr' e HG eq_refl ltac:(unfold bound_now; rewrite (framed_px _ _ F); exact Hbn1)) as FIN end.
     cbv zeta in FIN.
     match goal with |- CallPost _ _ _ _ ?x _ => set (wfin := x) in * end.
     destruct FIN as (HIf & Hokf & Hheldf & Hsucc & Hnaf).
@@ -859,28 +896,39 @@ Proof.
 Qed.
 
 (* ------------------------------------------ the flag only ever goes down *)
-Lemma mem_dest_frame c alloc w : w_ok (fst (mem_dest c alloc w)) = w_ok w.
+Definition frame2 (w w' : world) : Prop := w_ok w' = w_ok w /\ p_list (w_px w') = p_list (w_px w).
+
+Lemma mem_dest_frame2 c alloc w : frame2 w (fst (mem_dest c alloc w)).
 Proof.
-  unfold mem_dest, mem_dest_tj, mem_dest_ijg.
-  destruct (cf_mgr c).
-  - destruct ((w_buf w =? 0) || ((w_size w =? 0) && _)); try destruct alloc;
-      try (destruct (h_malloc _ _ _ _)); reflexivity.
-  - destruct ((w_buf w =? 0) || (w_size w =? 0)); try (destruct (h_malloc _ _ _ _)); reflexivity.
+  assert (TJ : forall clr zfix w0, frame2 w0 (fst (mem_dest_tj_body clr zfix alloc w0))).
+  { intros clr zfix w0. unfold mem_dest_tj_body.
+    destruct ((w_buf w0 =? 0) || ((w_size w0 =? 0) && _)); try destruct alloc;
+      try (destruct (h_malloc _ _ _ _)); split; reflexivity. }
+  assert (IJ : forall w0, frame2 w0 (fst (mem_dest_ijg_body w0))).
+  { intros w0. unfold mem_dest_ijg_body.
+    destruct ((w_buf w0 =? 0) || (w_size w0 =? 0)); try (destruct (h_malloc _ _ _ _)); split; reflexivity. }
+  unfold mem_dest, mem_dest_tj, mem_dest_ijg. destruct (cf_mgr c).
+  - destruct (cf_rebind c || _); [exact (TJ _ _ (bind_out w))|apply TJ].
+  - destruct (cf_rebind c); [exact (IJ (bind_out w))|apply IJ].
 Qed.
 
-Lemma run_call_frame c alloc ops w : w_ok (run_call c alloc ops w) = w_ok w.
+Lemma run_call_frame2 c alloc ops w : frame2 w (run_call c alloc ops w).
 Proof.
   unfold run_call, run_call_st.
-  pose proof (mem_dest_frame c alloc (set_cur (w_buf w) w)) as H.
-  change (w_ok (set_cur (w_buf w) w)) with (w_ok w) in H.
+  pose proof (mem_dest_frame2 c alloc (set_cur (w_buf w) w)) as H.
+  change (frame2 w (fst (mem_dest c alloc (set_cur (w_buf w) w)))) in H.
   destruct (mem_dest c alloc (set_cur (w_buf w) w)) as [w1 [st|]]; cbn [fst] in *.
   - exact H.
   - destruct (w_dest w1) as [d1|]; [|exact H].
     pose proof (run_ops_stable (cf_mgr c) ops w1 d1) as ST.
     destruct (run_ops (cf_mgr c) ops w1 d1) as [[w2 d2] st]. destruct ST as (F & _).
-    apply framed_cur in F as (_ & _ & Fok & _). cbn [fst].
-    destruct (st_ok st || d_alloc d2); cbn; congruence.
+    pose proof (framed_px _ _ F) as Fp. apply framed_cur in F as (_ & _ & Fok & _). cbn [fst].
+    destruct H as (H1 & H2). unfold frame2.
+    destruct (st_ok st || d_alloc d2); [unfold term_destination; destruct (bound_now _)|]; cbn; rewrite ?Fok, ?Fp; split; assumption.
 Qed.
+
+Lemma run_call_frame c alloc ops w : w_ok (run_call c alloc ops w) = w_ok w.
+Proof. exact (proj1 (run_call_frame2 c alloc ops w)). Qed.
 
 Lemma flag_if_ok b n w : w_ok (flag_if b n w) = true -> b = false /\ w_ok w = true.
 Proof. destruct b; cbn; intros H; [discriminate|split; [reflexivity|exact H]]. Qed.
@@ -888,7 +936,8 @@ Lemma flag_if_false n w : flag_if false n w = w. Proof. reflexivity. Qed.
 
 Lemma hop_mono c o w : w_ok (run_hop c o w) = true -> w_ok w = true.
 Proof.
-  destruct o as [n rc| z | | | k | | k | alloc ops]; cbn [run_hop].
+  destruct o as [n rc| z | | | k | | k | alloc ops | cp k]; cbn [run_hop].
+  9: { destruct cp; [cbn; auto|]. destruct (nth k (set_nth _ _ _) (0, 0)); cbn; auto. }
   - destruct (h_malloc _ _ _ _) as [h1 a] eqn:E. cbn. intros H.
     apply flag_if_ok in H as (_ & H). apply flag_if_ok in H as (_ & H). exact H.
   - cbn. auto.
@@ -963,7 +1012,12 @@ Lemma run_hop_ok c o w : good_cfg c -> Inv w -> w_ok (run_hop c o w) = true -> h
   Inv (run_hop c o w).
 Proof.
   intros Hgood HI Hok Hch.
-  destruct o as [n rc| z | | | k | | k | alloc ops]; cbn [run_hop] in *.
+  destruct o as [n rc| z | | | k | | k | alloc ops | cp k]; cbn [run_hop] in *.
+  9: { destruct HI as (W & NB & HD). destruct cp.
+       - split; [exact W|]. split; [exact NB|]. exact HD.
+       - destruct (nth k (set_nth _ _ _) (0, 0)) as [nb ns]. split; [exact W|]. split; [exact NB|].
+         cbn [w_dest w_reusable set_reusable set_px set_out w_heap w_buf]. destruct (w_dest w) as [d|]; [|reflexivity].
+         split; [exact (proj1 HD)|discriminate]. }
   - (* HAlloc *)
     destruct (n <? 0) eqn:En.
     { exfalso. destruct (h_malloc _ _ _ _) in Hok. cbn in Hok. discriminate. }
@@ -1011,8 +1065,8 @@ Proof.
 Qed.
 
 (* =========================================================== the theorems *)
-Lemma good_tj : good_cfg cfg_tj. Proof. right. reflexivity. Qed.
-Lemma good_ijg : good_cfg cfg_ijg. Proof. left. reflexivity. Qed.
+Lemma good_tj : good_cfg cfg_tj. Proof. split; [reflexivity|right; reflexivity]. Qed.
+Lemma good_ijg : good_cfg cfg_ijg. Proof. split; [reflexivity|left; reflexivity]. Qed.
 
 Lemma nobad_clean w : nobad (w_heap w) -> lib_clean w = true.
 Proof. unfold nobad, lib_clean. intros ->. reflexivity. Qed.
@@ -1182,3 +1236,29 @@ Proof.
   intros H. unfold icc_bytes. destruct icc_consts as (Hm & _). rewrite Hm.
   rewrite icc_loop_spec; [lia|]. rewrite Z2Nat.id by lia. lia.
 Qed.
+
+(* ------------------------------ results go through the records of the CURRENT call *)
+(* the caller passes the same buffer through another (pointer, size) record: the result is
+   stored in that record (w_buf / w_size, see the contracts above), no other record changes,
+   and nothing is stored through an earlier call's variables (BadStalePair is an LBad) *)
+Theorem current_pair_all c hs alloc ops : good_cfg c ->
+  w_ok (run c (hs ++ [HCall alloc ops])) = true ->
+  forallb hop_chunks_ok hs = true -> forallb chunk_ok ops = true ->
+  other_pairs (run c (hs ++ [HCall alloc ops])) = other_pairs (run c hs) /\
+  lib_clean (run c (hs ++ [HCall alloc ops])) = true.
+Proof.
+  intros G Hok Hch Hco. split.
+  - rewrite run_snoc. cbn [run_hop]. unfold other_pairs.
+    destruct (run_call_frame2 c alloc ops
+      (flag_if (zero_reuse c alloc (flag_if (negb (pass_ok c alloc (run c hs))) NCallerPass (run c hs))) NZeroReuse
+         (flag_if (negb (pass_ok c alloc (run c hs))) NCallerPass (run c hs)))) as (_ & H).
+    rewrite H. unfold flag_if. destruct (zero_reuse _ _ _), (negb _); reflexivity.
+  - apply reuse_safe_all; [exact G|exact Hok|]. rewrite forallb_snoc, Hch. exact Hco.
+Qed.
+
+(* seeded change C13-5 as a model: binding only when the buffer is not reused *)
+Definition hist_pairs : list hop := [bigcall; HSwitch true 1; HCall true [chunk 10]].
+Lemma norebind_stale_pair :
+  verdict (run cfg_tj_norebind hist_pairs) = (true, [], Some BadStalePair) /\
+  verdict (run cfg_tj hist_pairs) = (true, [], None).
+Proof. split; vm_compute; reflexivity. Qed.
